@@ -83,6 +83,28 @@ theorem inv_step (s s' : State) (a : Act) (hi : Inv s) (h : step s a = some s') 
       · simp only [Option.some.injEq] at h
         subst h
         exact hi.congr rfl rfl rfl
+  | openBegin id =>
+    simp only [step] at h
+    split at h
+    · cases h
+    · rename_i c _
+      split at h
+      · cases h
+      · simp only [Option.some.injEq] at h
+        subst h
+        exact (restoreBase_inv s.files c).congr rfl rfl rfl
+  | replayOne rot =>
+    simp only [step] at h
+    split at h
+    · cases h
+    · split at h
+      · cases h
+      · split at h
+        · cases h
+        · rename_i s1 h1
+          simp only [Option.some.injEq] at h
+          subst h
+          exact (write_inv hi h1).1.congr rfl rfl rfl
   | saveList =>
     simp only [step] at h
     split at h
